@@ -29,7 +29,7 @@ def msg1 (e : Event) : Msg :=
   | .cc => .cc ch (clamp7 e.v1) (clamp7 e.v2)
   | .metaEv => .metaM e.v2.toNat e.data
   | .sysex => .sysex e.data.tail
-  | .pitchBend => .bend ch (e.v1 % 128).toNat ((e.v1 / 128) % 128).toNat
+  | .pitchBend => .bend ch (clamp14 e.v1 % 128).toNat ((clamp14 e.v1 / 128) % 128).toNat
   | .pitchBendRange => .cc ch 0x65 0
   | .directSmf => .sysex []
 
@@ -62,8 +62,8 @@ theorem decodeMsg_simple (e : Event) (hv : Valid e) (hs : skipped e = false)
   · -- pitchBend
     have a : (0xE0 + e.ch.toNat) / 16 = 14 := by omega
     have b : (0xE0 + e.ch.toNat) % 16 = e.ch.toNat := by omega
-    have c : (e.v1 % 128).toNat < 128 := by omega
-    have d : ((e.v1 / 128) % 128).toNat < 128 := by omega
+    have c : (clamp14 e.v1 % 128).toNat < 128 := by omega
+    have d : ((clamp14 e.v1 / 128) % 128).toNat < 128 := by omega
     simp [body, msg1, hkind, decodeMsg, status_eq _ _ h0 h16, a, b, d7, c, d]
   · exact absurd rfl hk
   · -- voice
